@@ -31,6 +31,10 @@ def Rx.all : Rx → St → List St
     match r.all s with
     | s' :: _ => [{ s with caps := s'.caps }]
     | [] => []
+  | .nahead r, s =>
+    match r.all s with
+    | _ :: _ => []
+    | [] => [s]
   | .behind cs, s =>
     match s.prev with
     | some c => if cs.mem c then [s] else []
@@ -132,6 +136,12 @@ theorem Rx.m_eq_findSome (r : Rx) {R : Type} (s : St) (k : St → Option R) :
     cases r.all s with
     | nil => rfl
     | cons s' t => exact (findSome?_single _ k).symm
+  | nahead r ih =>
+    simp only [Rx.m, Rx.all]
+    rw [ih, findSome?_some_eq_head?]
+    cases r.all s with
+    | nil => exact (findSome?_single _ k).symm
+    | cons s' t => rfl
   | behind cs =>
     simp only [Rx.m, Rx.all]
     generalize s.prev = p
